@@ -3,7 +3,7 @@
    rand.Intn, a concrete structure satisfying those hypotheses is exhibited. *)
 From Coq Require Import Lia ZifyBool.
 From GL Require Import Common.Bytes Str.StrModel Str.StrFacts Str.FormatModel Str.FormatFacts
-     Str.FormatRoundtrip Str.MathWModel Str.MathWFacts Str.MathWOrder Properties.C15.
+     Str.FormatRoundtrip Str.MathWModel Str.MathWFacts Str.MathWOrder Str.MathWLdexp Properties.C15.
 
 (* ----- index / bytes part ----- *)
 Example ex_sub : strSub [104;101;108;108;111] (-3) 10 = [108;108;111]
@@ -221,8 +221,41 @@ Proof. apply modf_infinity. reflexivity. Qed.
 Example ex_ldexp : mres_eqb (mathLdexp num ref_ldexp to_int64 [NFin false 3 0; NFin false 5 (-1)]) (MOk [NFin false 3 2]) = true.
 Proof. vm_compute. reflexivity. Qed.
 Example ex_ldexp_thm : mathLdexp num ref_ldexp to_int64 [NFin false 3 0; NFin false 5 (-1)]
-                       = MOk [ref_ldexp (NFin false 3 0) (to_int64 (NFin false 5 (-1)))].
+                       = MOk [ref_ldexp (NFin false 3 0) (clamp_exp (to_int64 (NFin false 5 (-1))))].
 Proof. apply ldexp_spec. Qed.
+
+(* ldexp in Z.  2^-1024 (topmost subnormal binade): frexp gives (1/2, -1023) and ldexp gives it back *)
+Example ex_ldexp_frexp_roundtrip :
+  ref_frexp (NFin false 1 (-1024)) = (NFin false 1 (-1), -1023) /\
+  ref_ldexp_z (fst (ref_frexp (NFin false 1 (-1024)))) (snd (ref_frexp (NFin false 1 (-1024)))) = NFin false 1 (-1024).
+Proof. split; [reflexivity|]. apply ldexp_ref_frexp_roundtrip; cbn; lia. Qed.
+(* 2^1000 * 2^-1023 = 2^-23 *)
+Example ex_ldexp_exact : ref_ldexp_z (NFin false 1 1000) (-1023) = NFin false 1 (-23).
+Proof. apply (ldexp_ref_exact false 1 1000 (-1023)); cbn; lia. Qed.
+(* 3 * 2^-1075 is a tie between 2^-1074 and 2 * 2^-1074: the even one; 5 * 2^-1076 rounds down to 2^-1074 *)
+Example ex_ldexp_rounds :
+  ref_ldexp_z (NFin true 3 0) (-1075) = NFin true 2 (-1074) /\ Z.even 2 = true /\
+  2 * Z.abs (3 - 2 * 2 ^ 1) = 2 ^ 1.
+Proof.
+  destruct (ldexp_ref_rounds true 3 0 (-1075)) as (_ & _ & H); [lia|cbn; lia|].
+  split; [rewrite H; reflexivity|split; reflexivity].
+Qed.
+Example ex_ldexp_format : round64 false (2 ^ 53 - 1) 971 = NFin false (2 ^ 53 - 1) 971 /\
+  round64 false (2 ^ 54 - 1) 970 = NInf false /\ round64 true 1 (-1076) = NFin true 0 0.
+Proof. repeat split; vm_compute; reflexivity. Qed.
+Example ex_ldexp_format_thm : 0 <= 2 ^ 53 - 1 <= 2 ^ 53 /\ -1074 <= 971.
+Proof.
+  destruct (ldexp_ref_format false (2 ^ 53 - 1) 971 false (2 ^ 53 - 1) 971) as (_ & H & [H0|[H1 _]]);
+    [lia|vm_compute; reflexivity| | ]; [exfalso; revert H0; vm_compute; discriminate|split; assumption].
+Qed.
+(* the clamp: ldexp(1/2, -2^63) is (+)0 with and without it; ldexp(2^-1074, 2^40) the infinity *)
+Example ex_ldexp_clamp :
+  ref_ldexp_z (NFin false 1 (-1)) (clamp_exp (- 2 ^ 63)) = NFin false 0 0 /\
+  ref_ldexp_z (NFin false 1 (-1)) (clamp_exp (- 2 ^ 63)) = ref_ldexp_z (NFin false 1 (-1)) (- 2 ^ 63) /\
+  ref_ldexp_z (NFin false 1 (-1074)) (clamp_exp (2 ^ 40)) = NInf false.
+Proof.
+  split; [vm_compute; reflexivity|]. split; [apply ldexp_ref_clamp; lia|vm_compute; reflexivity].
+Qed.
 
 (* frexp on the dyadic numbers the model runs on: Frexp = ref_frexp, Ldexp = exponent shift *)
 Definition dy_ldexp (x : num) (k : Z) : num :=
